@@ -158,6 +158,8 @@ PROPS["C19"] = {
     "units": [
         {"name": "C19a", "pkg": "server/telemetry", "test": "TestVerifC19a",
          "quick": {"shards": 8, "checks": 100}, "thorough": {"shards": 16, "checks": 2000, "timeout": 3000}},
+        {"name": "C19cfg", "pkg": "server", "test": "TestVerifC19cfg",
+         "quick": {"shards": 2, "checks": 400}, "thorough": {"shards": 4, "checks": 4000}},
     ],
 }
 
@@ -186,5 +188,35 @@ PROPS["C13"] = {
     "units": [
         {"name": "C13a", "pkg": "server", "test": "TestVerifC13a",
          "quick": {"shards": 16, "checks": 300}, "thorough": {"shards": 16, "checks": 10000, "timeout": 3000}},
+    ],
+}
+
+PROPS["C06"] = {
+    "level": "exploration",
+    "technique": "model-based property testing (rapid): generated valid metadata histories x snapshot/restart splits; determinism, restart-stability and replay-safety relations over the observable metadata view",
+    "level_text": "TODO",
+    "level_note": "TODO",
+    "rule": "TODO",
+    "assumptions": TRUST,
+    "claimed": False,
+    "units": [
+        {"name": "C06", "pkg": "server", "test": "TestVerifC06",
+         "quick": {"shards": 16, "checks": 150}, "thorough": {"shards": 16, "checks": 5000, "timeout": 3000}},
+    ],
+}
+
+PROPS["C15"] = {
+    "level": "exploration",
+    "technique": "property-based testing (rapid): random policy sets x API call sequences on a started server; exact-match policy model as oracle, state digest before/after denied calls, sentinel publishes",
+    "level_text": "TODO",
+    "level_note": "TODO",
+    "rule": "TODO",
+    "assumptions": TRUST,
+    "claimed": False,
+    "units": [
+        {"name": "C15", "pkg": "server", "test": "TestVerifC15",
+         "quick": {"shards": 4, "checks": 60}, "thorough": {"shards": 16, "checks": 600, "timeout": 3000}},
+        {"name": "C15cfg", "pkg": "server", "test": "TestVerifC15cfg",
+         "quick": {"shards": 2, "checks": 300}, "thorough": {"shards": 4, "checks": 3000}},
     ],
 }
